@@ -20,6 +20,12 @@ CLAIMED = {
         'including zero and negative depths; with force surface temperature every temperature entry at depth 0 is the surface temperature whatever else is requested and whether or not a feature covers the point.',
    note=TB + 'exact-real reading for the adiabat formula (rounding outside the claim); stub features; constants are symbolic members, their parsing is outside.',
    technique='symbolic execution of clang LLVM IR + z3 (QF_NRA+UF for the adiabat, FP for the forced-temperature comparison), bounded request length', design='4/C03'),
+ 'C16': dict(
+   text='Symbolic execution of every function of wrapper_c.cc and wrapper_cpp.cc with the World constructor, destructor and query methods replaced by recording stubs: for all points, depths, '
+        'property triples (lists up to 4 entries), returned vectors up to 12 values, strings up to 3 symbolic characters and null/non-null optional pointers, the solver shows every argument reaches World '
+        'unchanged and in order, exactly size() returned values are copied out and nothing else is written, consecutive calls do not influence each other, and release_world destroys that object.',
+   note=TB + 'World itself is stubbed here (its behaviour is C01-C15); libstdc++ out-of-line std::string members are modelled (engine/strmodel.py); Fortran/Python bindings outside.',
+   technique='symbolic execution of clang LLVM IR + z3 (QF_BV/FP), recording stubs for the callee, bounded list and string lengths', design='4/C16'),
 }
 NA_DEFAULT = 'check not built yet (work in progress; see DESIGN.md section 4 for the planned obligations)'
 NA = {
